@@ -116,6 +116,11 @@ def run_e2e(ctx):
             cats[0].opt = r.below(4)
             for c in cats:
                 c.files = [f for f in c.files if f.shown_name() not in (b'L',)]
+            # legal DFS names the host cannot use verbatim: the .inf must still record the catalogue name
+            if k % 3 == 0 and cats[0].files:
+                cats[0].files[0].name = r.choice([b'SRC/C', b'A/B/C', b'/X', b'X/', b'..', b'a b'])
+                if len(cats[0].files) > 1 and k % 2 == 0:
+                    cats[0].files[1].dir = 0x2F
         img = d.encode(discs.filler(r))
         name = 'd' + d.extension()
         for (label, origin, vlen, cats) in d.volumes():
@@ -195,9 +200,6 @@ def run_e2e(ctx):
             if i['exit'] != 0 or i['out'] != want:
                 ctx.violation('show-titles', 'show-titles printed %r, catalogue titles are %r' % (i['out'][:80], want[:80]), common.replay_of(c))
         else:
-            safe = all(b'/' not in f.shown_name() and f.dir != 0x2F for f in m['files'])
-            if not safe:
-                continue
             infs = {k.split(b'/')[-1]: v for k, v in i['files'].items() if k.endswith(b'.inf')}
             for f in m['files']:
                 nm = bytes([f.dir]) + b'.' + f.shown_name()
